@@ -234,7 +234,16 @@ const doRender = (req, snapshots) => {
   if (!UPDATE_MODES.has(updateMode)) throw new Error('"updateMode" must be "", "virtualTree" or "bindingMap"')
   const opts = { flatten: req.flatten !== false, ids: !!req.ids }
 
-  const script = compile(`${strictPrefix(req.strict)}${req.gen_groups}`, 'gen_groups')
+  // Slot values come from a component's dynamic slots, which the stub backend does not have.  With
+  // "slotValues" the parameters V (slot values) and W (their update trees) of every children function
+  // default to probes: the value of slot value `n` is the string "SV:n", its update tree is `false`.
+  // Only the two places where the generator reads V and W are rewritten.
+  let genSrc = req.gen_groups
+  if (req.slotValues) {
+    genSrc = genSrc.split('X(V)[').join('X(V||$$SV)[').split('?!0:W[').join('?!0:(W||$$SW)[')
+    genSrc = `(()=>{var $$SV=new Proxy({},{get:(t,k)=>typeof k==='string'?'SV:'+k:undefined}),$$SW=new Proxy({},{get:()=>false});return ${genSrc}})()`
+  }
+  const script = compile(`${strictPrefix(req.strict)}${genSrc}`, 'gen_groups')
   const G = script.runInContext(freshContext())
   if (G === null || (typeof G !== 'object' && typeof G !== 'function')) throw new Error('gen_groups did not evaluate to an object')
   const group = G[path]
